@@ -78,11 +78,13 @@ fn subst_x(x: &X, binds: &[(String, String)]) -> X {
     }
 }
 
-fn gen_tpl(rng: &mut Rng, i: usize, earlier: &[Tpl]) -> Tpl {
+fn gen_tpl(rng: &mut Rng, i: usize, earlier: &[Tpl], defaults: bool) -> Tpl {
     let id = format!("t{i}");
     let place = rng.below(3) as u8;
-    // inline templates are rendered themselves, so they only use literal values
-    let lit = place == 2;
+    // inline templates are rendered themselves, so they only use literal values - unless the document
+    // defines defaults for every parameter (then the template can be resolved where it stands, and an
+    // instance must still start from the unevaluated original)
+    let lit = place == 2 && !defaults;
     let v = |rng: &mut Rng, name: &str, lit_val: &str| -> String {
         // numeric parameters are sometimes used through an expression: evaluating the copy then fails
         // (instead of leaving a literal "$w") when the reuse element does not bind them
@@ -182,7 +184,7 @@ fn tpl_x(t: &Tpl) -> X {
     }
 }
 
-fn gen_inst(rng: &mut Rng, tpls: &[Tpl], n: usize) -> Inst {
+fn gen_inst(rng: &mut Rng, tpls: &[Tpl], n: usize, defaults: bool) -> Inst {
     let ti = rng.below(tpls.len());
     let t = &tpls[ti];
     let mut binds = vec![];
@@ -197,7 +199,7 @@ fn gen_inst(rng: &mut Rng, tpls: &[Tpl], n: usize) -> Inst {
     }
     // now and then a binding is forgotten: the instantiation (and the hand-written form, which then
     // still mentions the variable) must fail cleanly, leaving no scope behind
-    if binds.len() > 1 && rng.chance(1, 12) {
+    if !defaults && binds.len() > 1 && rng.chance(1, 12) {
         let k = rng.below(binds.len());
         if binds[k].0 != "label" && binds[k].0 != "kind" { binds.remove(k); }
     }
@@ -213,7 +215,7 @@ fn gen_inst(rng: &mut Rng, tpls: &[Tpl], n: usize) -> Inst {
             // a direction form needs the size of the reuse element itself, which the code takes from the
             // registered (unparameterised) target: only literal templates get those (with a parameterised
             // size the transform fails with an error - a limitation, reported loudly, not judged here)
-            Body::Shape(X::El { name, .. }) if name == "rect" && rng.chance(1, 4) =>
+            Body::Shape(X::El { name, .. }) if name == "rect" && !defaults && rng.chance(1, 4) =>
                 Some(format!("#anchor{}", if t.place == 2 { *rng.pick(&["|h 2", "|V 1", "@br 1 1", "|v", "@tl -3 2"]) } else { *rng.pick(&["@br 1 1", "@tl -3 2", "@c", "@r:25%"]) })),
             _ => None,
         },
@@ -406,7 +408,7 @@ pub fn run(rep: &mut Report, tier: &str, seed: u64) -> Result<(), String> {
     let mut corr = Stream::new(
         "doc/reuse",
         "correspondence",
-        "1-3 templates (rect / circle / ellipse / line, groups of them, symbols, groups containing a reuse of an earlier template; parameterised by variables in sizes, text and classes; inside <specs>, inside <defs> or inline; before or after their use) and 1-5 <reuse> elements with different bindings, ids, classes, styles, x/y offsets (or none) and attribute overrides: transform_str (events + end-of-run probe) vs the Lean control-skeleton model; non-trivial = every case",
+        "1-3 templates (rect / circle / ellipse / line, groups of them, symbols, groups containing a reuse of an earlier template; parameterised by variables in sizes, text and classes; inside <specs>, inside <defs> or inline; before or after their use; one document in three with document-level defaults for every parameter, so that a template can be resolved where it stands) and 1-5 <reuse> elements with different bindings, ids, classes, styles, x/y offsets (or none) and attribute overrides: transform_str (events + end-of-run probe) vs the Lean control-skeleton model; non-trivial = every case",
     );
     let mut orc = Stream::new(
         "oracle/inlined",
@@ -417,12 +419,20 @@ pub fn run(rep: &mut Report, tier: &str, seed: u64) -> Result<(), String> {
     for _ in 0..n {
         let nt = 1 + rng.below(3);
         let mut tpls: Vec<Tpl> = vec![];
-        for i in 0..nt { let t = gen_tpl(&mut rng, i, &tpls); tpls.push(t); }
+        // one document in three defines a default for every parameter name at the top
+        let defaults = rng.chance(1, 3);
+        for i in 0..nt { let t = gen_tpl(&mut rng, i, &tpls, defaults); tpls.push(t); }
         // a template used by another one must come first and not be deferred
         let ni = 1 + rng.below(5);
-        let insts: Vec<Inst> = (0..ni).map(|k| gen_inst(&mut rng, &tpls, k)).collect();
+        let insts: Vec<Inst> = (0..ni).map(|k| gen_inst(&mut rng, &tpls, k, defaults)).collect();
         let mut p: Vec<X> = vec![];
         let mut u: Vec<X> = vec![];
+        if defaults {
+            let d = X::leaf("var", &[("w", "7"), ("h", "3"), ("r", "2.5"), ("a", "4"), ("b", "1.5"), ("label", "dflt"), ("kind", "d"), ("off", "1"), ("ref", "#anchor")]);
+            p.push(d.clone());
+            u.push(d);
+            corr.tally("document-defaults");
+        }
         let anchor = X::leaf("rect", &[("id", "anchor"), ("xy", "30 40"), ("wh", "10 4")]);
         let anchor_first = rng.chance(1, 2);
         if anchor_first { p.push(anchor.clone()); u.push(anchor.clone()); }
